@@ -139,6 +139,7 @@ type RPCPlan struct {
 	timeoutRepeated   string
 	awaitExpiry       bool
 	neverEnds         bool // the handler only returns when its context ends
+	stubborn          bool // the handler keeps running for a while after its context has ended
 	late              bool // started after the tunnel ended
 
 	// results filled in at run time (read after the run)
@@ -585,7 +586,13 @@ func (h *hstream) exec(actor string, ops []Op) (bool, error) {
 			evReturn(h.rpc, actor, OpAwaitCtx, 0, &OpResult{Err: h.ctx.Err()})
 		case OpPause:
 			evInvoke(h.rpc, actor, OpPause, op.N, 0)
-			h.ts.W.Gate(op.N).Wait(h.ctx)
+			if op.Insist {
+				// a handler that does not return promptly when its context
+				// ends (it is busy with something that cannot be interrupted)
+				h.ts.W.Gate(op.N).WaitOnly()
+			} else {
+				h.ts.W.Gate(op.N).Wait(h.ctx)
+			}
 			evReturn(h.rpc, actor, OpPause, op.N, nil)
 		case OpProbe:
 			evInvoke(h.rpc, actor, OpProbe, 0, 0)
@@ -672,6 +679,12 @@ func (g *Gate) Wait(ctx context.Context) {
 	case <-g.ch:
 	case <-ctx.Done():
 	}
+	simrt.Yield(simrt.ClassWake)
+}
+
+// WaitOnly blocks until the gate is opened, whatever happens to any context.
+func (g *Gate) WaitOnly() {
+	<-g.ch
 	simrt.Yield(simrt.ClassWake)
 }
 
